@@ -280,11 +280,17 @@ func (p *Packet) Bytes() []byte {
 		nbits = 64
 		exp = -11 // precise to 10 ps
 		period := math.Pow10(-int(exp)) / ts.Rate
+		if ts.Rate <= 0 || math.IsNaN(period) || math.IsInf(period, 0) {
+			period = 1 // rate unknown (0): the loop below would never end on an infinite period
+		}
 		denom = 1
 		for ; period > 65535; period *= 0.5 {
 			denom *= 2
 		}
 		num = uint16(math.Round(period))
+		if ts.Rate <= 0 {
+			denom = 0 // decodes as rate 0 again
+		}
 		binary.Write(buf, binary.BigEndian, byte(tlvTIMESTAMPUNIT))
 		binary.Write(buf, binary.BigEndian, byte(2))
 		binary.Write(buf, binary.BigEndian, byte(nbits))
